@@ -29,7 +29,7 @@ for d in seeded/*/; do
   if [ $res_apply = ok ]; then
     git -C /repo apply $PWD/$d/patch.diff
     for c in $(cat $d/checks 2>/dev/null || echo $prop); do
-      out=$(bin/vcheck $c --tier quick 2>&1 | grep -v "^E1002\|^W1002" | tail -1)
+      out=$(VERIF_OUT=/var/tmp/verif_seed_out bin/vcheck $c --tier quick 2>&1 | grep -v "^E1002\|^W1002" | tail -1)
       nv=$(bin/true 2>/dev/null; echo "$out" | sed -n 's/.*violations=\([0-9]*\).*exit=\([0-9]*\).*/\1 exit=\2/p')
       caught="$caught $c:violations=$nv"
     done
